@@ -369,6 +369,10 @@ def run_check(prop, modname, jobs, tier, seed, level='model_checking', functions
             seen.add(key)
             try:
                 ok, detail = replay(v)
+            except HarnessError as e:
+                # the replay itself could not be carried out (no verdict either way)
+                agg['errors'].append('replay of %s/%s: %s' % (v['job']['id'], v['label'], e))
+                continue
             except Exception as e:
                 ok, detail = False, 'replay raised %r' % (e,)
             v['replay_detail'] = detail
